@@ -14,10 +14,13 @@ RULE = (
     "array_contract_expression (+ re-use of the stored expression on fresh "
     "arrays), einsum_expression incl. constants} over a POOL of near-identical "
     "contractions derived from one base: output order permuted, one operand "
-    "transposed, one size changed, pure relabelling (should share), and per "
-    "call an optimize value from {preset names, an explicit tuple path, the "
+    "transposed, one size changed, pure relabelling (should share) - a quarter "
+    "of the bases are 'stars' on which optimal and optimal-outer return "
+    "different paths -, and per "
+    "call an optimize value from {nine deterministic preset names incl. aliases, an explicit tuple path, the "
     "same path as a list, another explicit path} and kwargs from "
-    "{strip_exponent, implementation, prefer_einsum, sort_contraction_indices} "
+    "{strip_exponent, implementation, prefer_einsum, sort_contraction_indices, "
+    "via=(convert_in, convert_out) with converters that mark the value} "
     "incl. values equal under ==/hash but of different type (1/True/1.0). "
     "The labels of a history are one-character strings (default "
     "canonicalisation, or canonicalize=False) or integers incl. -1,-2,... "
@@ -37,8 +40,25 @@ ASSUMPTIONS = [
     "numpy backend",
 ]
 
-PRESETS = ["auto", "greedy", "optimal", "auto-hq"]
-FUNCS = ["einsum", "array_contract", "path", "tree", "expression", "expression_reuse", "einsum_expression", "einsum_expression_constants", "einsum_ellipsis"]
+PRESETS = ["auto", "greedy", "optimal", "auto-hq", "optimal-outer", "dp", "dynamic-programming", "eager", "opportunistic"]
+
+
+# module level converters for the ``via=(convert_in, convert_out)`` option
+# (hashable, stable identities; each leaves a visible mark on the value)
+def _via_double(x):
+    return 2 * x
+
+
+def _via_same(x):
+    return x
+
+
+def _via_negate(x):
+    return -x
+
+
+VIAS = {"dbl": (_via_double, _via_same), "neg": (_via_same, _via_negate), "same": (_via_same, _via_same)}
+FUNCS = ["einsum", "array_contract", "path", "path", "path", "tree", "expression", "expression_reuse", "einsum_expression", "einsum_expression_constants", "einsum_ellipsis"]
 # the same equation string is used with different numbers of ellipsis
 # dimensions from call to call (parsing is cached on (equation, shapes))
 ELL_EQS = ["a...,a...->...", "...a,a...->...", "a...,...->a...", "...ab,b->...a", "a...,a...", "...,...->..."]
@@ -46,12 +66,29 @@ ELL_EQS = ["a...,a...->...", "...a,a...->...", "a...,...->a...", "...ab,b->...a"
 
 @st.composite
 def histories(draw):
-    net = draw(
-        gen.networks(
-            min_n=2, max_n=5, max_rank=3, max_dim=6, alphabets=("ascii",),
-            volume_limit=2**14, output_prob=0.5, allow_size1=draw(st.booleans()),
+    star = False
+    if draw(st.integers(0, 3)) == 0:
+        # a 'star': vectors hanging off one tensor, where contracting the vectors
+        # with each other first (an outer product) can be strictly cheaper, so
+        # the presets that differ only in whether they search outer products
+        # ('optimal' / 'optimal-outer') really return different paths
+        k = draw(st.integers(3, 4))
+        labs = list(gen.ASCII[:k])
+        inputs = [[ix] for ix in labs[:-1]]
+        inputs.insert(draw(st.integers(0, k - 1)), list(draw(st.permutations(labs))))
+        net = {
+            "inputs": inputs,
+            "output": [labs[-1]] if draw(st.booleans()) else [],
+            "sizes": {ix: draw(st.integers(2, 6)) for ix in labs},
+        }
+        star = True
+    else:
+        net = draw(
+            gen.networks(
+                min_n=2, max_n=5, max_rank=3, max_dim=6, alphabets=("ascii",),
+                volume_limit=2**14, output_prob=0.5, allow_size1=draw(st.booleans()),
+            )
         )
-    )
     n = len(net["inputs"])
     p1 = draw(gen.linear_paths(n))
     p2 = draw(gen.linear_paths(n))
@@ -68,10 +105,12 @@ def histories(draw):
     )
     opts = draw(
         st.lists(
-            st.sampled_from(["auto", "greedy", "optimal", "auto-hq", "p1_tuple", "p1_list", "p2_tuple", "p2_list", "e_tuple", "e_list"]),
+            st.sampled_from(PRESETS + ["optimal", "optimal-outer", "p1_tuple", "p1_list", "p2_tuple", "p2_list", "e_tuple", "e_list"]),
             min_size=1, max_size=3,
         )
     )
+    if star:
+        opts = ["optimal", "optimal-outer"] + opts[:1]
     kwsets = draw(
         st.lists(
             st.fixed_dictionaries(
@@ -80,6 +119,7 @@ def histories(draw):
                     "impl": st.sampled_from([None, None, "cotengra", "autoray"]),
                     "prefer_einsum": st.sampled_from([False, False, True, 1, 1.0]),
                     "sort": st.sampled_from([False, False, True]),
+                    "via": st.sampled_from([None, None, "dbl", "neg", "same"]),
                 }
             ),
             min_size=1, max_size=3,
@@ -113,7 +153,7 @@ def strategy(tier, sub=None):
 
 
 def budget(tier, sub=None):
-    return {"examples": 3200 if tier == "quick" else 120000, "shards": 16}
+    return {"examples": 6400 if tier == "quick" else 160000, "shards": 16}
 
 
 def clear_caches():
@@ -293,6 +333,12 @@ def run_case(spec, sub=None):
         if do_sort:
             kw["sort_contraction_indices"] = True
         strip = call["strip"]
+        via = call.get("via")
+        if via and not strip and fn in ("einsum", "array_contract", "expression", "expression_reuse", "einsum_expression"):
+            kw["via"] = VIAS[via]
+            factor = {"dbl": 2.0 ** n, "neg": -1.0, "same": 1.0}[via]
+            exp = exp * factor
+            exp2 = exp2 * factor
         what = f"call#{k} {fn}({call['variant']}, optimize={o}, labels={labmode})"
 
         def value_of(res, stripped):
